@@ -35,7 +35,7 @@ def main():
         if o.verdict == "discharged" and o.covered is not False and "-v" not in sys.argv: continue
         print("  %-10s %s inst=%d ms=%.0f %s" % (o.verdict, o.name, o.instances, o.ms, "" if o.covered is not False else "VACUOUS-ANTECEDENT"))
         for f in o.failed[:3]:
-            print("      FAIL", {k: v for k, v in f.items() if k != "smt2"})
+            print("      FAIL", str({k: v for k, v in f.items() if k not in ("smt2", "model")})[:300], str({k: v for k, v in (f.get("model") or {}).items() if "#" not in k and "!" not in k})[:400])
         for f in o.unknown[:3]:
             print("      UNKNOWN", {k: v for k, v in f.items() if k != "smt2"})
     n = sum(1 for o in eng.obls.values() if o.verdict == "discharged")
